@@ -15,7 +15,10 @@
    (c20_single_generic_403, c20_body_constant), hence contains a string only if the
    fixed document does (third conjunct of c20_body_constant). *)
 From Coq Require Import List String ZArith Ascii.
-From Rbacx Require Import Value Asgi AsgiProofs.
+(* (the engine modules come first: both models have a record `decision`; the short names
+   d_allowed, ... below are Asgi's, the engine's are written Engine.d_allowed, ...) *)
+From Rbacx Require Import Value Cond Target Policy PolicySet Compiler Oblig Engine
+     PolicyProofs PolicySetProofs ObligProofs EngineProofs Asgi AsgiProofs AsgiEngine.
 Import ListNotations.
 Local Open Scope string_scope.
 
@@ -322,3 +325,235 @@ Example c20_example_guard_already_in_scope :
   r_events (call (ex_cfg false) (Some (BRaise "RuntimeError")) [("type", SGuard)] 1 2 (ERet ex_deny) None None)
   = [EvApp [("type", SGuard); ("rbacx_guard", SGuard)] 1 2].
 Proof. vm_compute. repeat split. Qed.
+
+(* ------------------------------------------------------------------ *)
+(* composed with the engine (theories/AsgiEngine.v): C20 x C01         *)
+(* ------------------------------------------------------------------ *)
+(* Above, what guard.evaluate_async does is an input of `call`.  Here it is the engine model of
+   C01: call_engine cfg rel strict policy resolved objs builder scope recv send send_fail app_exc
+   is `call` whose evaluation outcome is guard_eval (built-in obligation checker, ANY relationship
+   oracle rel, strict or lax, ANY role-resolver answer) on the request made of the four objects the
+   env builder returned — objs says what the object with a given identity is (Subject as
+   {"id","roles","attrs"}, Action as its name, Resource as {"type","id","attrs"}, Context as its
+   attrs), request_of objs s a r c = {"subject": objs s, "action": objs a, "resource": objs r,
+   "context": objs c}.  A Decision reaches the middleware as asgi_decision d (allowed: the bool;
+   effect, reason: the strs; rule_id: the str or None; policy_id: the value or None), a raise as a
+   raise; where the engine model is outside its domain (GOod) call_engine is None: no claim.
+   engine_eval ... s a r c = fst (guard_eval unit (relh_pure rel) builtin_oblig strict policy
+   (request_of objs s a r c) resolved tt).  tree_ok: as in C01 (implied by schema validity, C06). *)
+
+(* the bridge definitions, restated so that this file shows them *)
+Example c20_bridge_is :
+  (forall objs s a r c, request_of objs s a r c =
+     VObj [("subject", objs s); ("action", objs a); ("resource", objs r); ("context", objs c)]) /\
+  (forall d, asgi_decision d =
+     {| d_allowed := VBool (Engine.d_allowed d); d_effect := VStr (Engine.d_effect d);
+        d_reason := VStr (Engine.d_reason d);
+        d_rule_id := match Engine.d_rule_id d with Some s => VStr s | None => VNull end;
+        d_policy_id := match Engine.d_policy_id d with Some v => v | None => VNull end |}) /\
+  (forall d, eval_of_gres (GDecision d) = Some (ERet (asgi_decision d))) /\
+  (forall w, eval_of_gres (GRaise w) = Some (ERaise w)) /\ eval_of_gres GOod = None /\
+  (forall cfg rel strict policy resolved objs sc0 recv send s a r c send_fail app_exc,
+     checked cfg (Some (BRet [s; a; r; c])) sc0 = true ->
+     call_engine cfg rel strict policy resolved objs (Some (BRet [s; a; r; c])) sc0 recv send send_fail app_exc =
+     match eval_of_gres (engine_eval rel strict policy resolved objs s a r c) with
+     | Some ev => Some (call cfg (Some (BRet [s; a; r; c])) sc0 recv send ev send_fail app_exc)
+     | None => None
+     end) /\
+  (forall rel strict policy resolved objs s a r c,
+     engine_eval rel strict policy resolved objs s a r c =
+     fst (guard_eval unit (relh_pure rel) builtin_oblig strict policy (request_of objs s a r c) resolved tt)).
+Proof. repeat split; try reflexivity. exact call_engine_checked. Qed.
+
+(* (1) Every configuration, scope, env-builder behaviour, send / downstream behaviour.  If the
+   access check is on (http scope, mode "enforce", a builder) and downstream was invoked, then the
+   builder delivered four objects, the engine allowed the request they make, and the policy
+   contains — at any depth — a rule applicable to the environment built from it whose effect is
+   not deny and whose obligations the built-in checker does not refuse (C01's conclusion). *)
+Theorem c20_downstream_only_with_permit_rule :
+  forall cfg rel strict kvs resolved objs builder sc0 recv send send_fail app_exc res,
+  tree_ok (VObj kvs) ->
+  checked cfg builder sc0 = true ->
+  call_engine cfg rel strict (VObj kvs) resolved objs builder sc0 recv send send_fail app_exc = Some res ->
+  app_called res = true ->
+  exists s a r c d env rule eff,
+    builder = Some (BRet [s; a; r; c]) /\
+    engine_eval rel strict (VObj kvs) resolved objs s a r c = GDecision d /\ Engine.d_allowed d = true /\
+    build_env strict (request_of objs s a r c) resolved = Some env /\
+    In rule (all_rules (VObj kvs)) /\ applicable rel rule env /\
+    rule_effect rule = Some eff /\ eff <> "deny" /\
+    Engine.d_obligations d = rule_obls rule /\
+    (forall ok ch, check "permit" (rule_obls rule) (get_key "context" env) = Ok (ok, ch) -> ok = true).
+Proof. exact asgi_downstream_only_with_permit_rule. Qed.
+Print Assumptions c20_downstream_only_with_permit_rule.
+
+(* downstream is invoked iff the engine answers a Decision with allowed = true; then the trace is
+   build_env, evaluate, one downstream call, nothing sent *)
+Theorem c20_downstream_iff_engine_allows :
+  forall cfg rel strict policy resolved objs sc0 recv send s a r c send_fail app_exc res,
+  c_mode cfg = VStr "enforce" ->
+  scope_get "type" sc0 = Some (SV (VStr "http")) ->
+  call_engine cfg rel strict policy resolved objs (Some (BRet [s; a; r; c])) sc0 recv send send_fail app_exc = Some res ->
+  (app_called res = true <->
+   exists d, engine_eval rel strict policy resolved objs s a r c = GDecision d /\ Engine.d_allowed d = true) /\
+  (app_called res = true ->
+     r_events res = [EvBuild (attached sc0); EvEval s a r c; EvApp (attached sc0) recv send] /\
+     messages res = [] /\ r_end res = app_end app_exc).
+Proof. exact asgi_downstream_iff_engine_allows. Qed.
+Print Assumptions c20_downstream_iff_engine_allows.
+
+(* (2) No rule of the policy applies to the built request: downstream is not invoked — whether the
+   engine returns its Decision or raises, whatever the send calls do. *)
+Theorem c20_no_applicable_rule_blocks_downstream :
+  forall cfg rel strict kvs resolved objs sc0 recv send s a r c send_fail app_exc env res,
+  tree_ok (VObj kvs) ->
+  c_mode cfg = VStr "enforce" ->
+  scope_get "type" sc0 = Some (SV (VStr "http")) ->
+  build_env strict (request_of objs s a r c) resolved = Some env ->
+  (forall rule, In rule (all_rules (VObj kvs)) -> ~ applicable rel rule env) ->
+  call_engine cfg rel strict (VObj kvs) resolved objs (Some (BRet [s; a; r; c])) sc0 recv send send_fail app_exc = Some res ->
+  app_called res = false /\ app_calls res = [].
+Proof. exact asgi_no_applicable_rule_blocks_downstream. Qed.
+Print Assumptions c20_no_applicable_rule_blocks_downstream.
+
+(* ... and when the engine returns its Decision (sends succeeding): it is a deny and the response
+   is exactly the generic 403 — with header diagnostics off the whole trace is fixed; with them on
+   and renderable ids (encodable, as in c20_single_generic_403) the fixed headers are followed by
+   diagnostics among which there is no X-RBACX-Rule (the Decision names no rule). *)
+Theorem c20_no_applicable_rule_gives_403 :
+  forall cfg rel strict kvs resolved objs sc0 recv send s a r c app_exc env d res,
+  tree_ok (VObj kvs) ->
+  c_mode cfg = VStr "enforce" ->
+  scope_get "type" sc0 = Some (SV (VStr "http")) ->
+  build_env strict (request_of objs s a r c) resolved = Some env ->
+  (forall rule, In rule (all_rules (VObj kvs)) -> ~ applicable rel rule env) ->
+  engine_eval rel strict (VObj kvs) resolved objs s a r c = GDecision d ->
+  call_engine cfg rel strict (VObj kvs) resolved objs (Some (BRet [s; a; r; c])) sc0 recv send None app_exc = Some res ->
+  Engine.d_allowed d = false /\ Engine.d_effect d = "deny" /\
+  app_called res = false /\
+  (c_add_headers cfg = false ->
+     r_events res = [EvBuild (attached sc0); EvEval s a r c;
+                     EvSend send (MStart 403 base_headers);
+                     EvSend send (MBody "{""detail"": ""Forbidden""}")] /\
+     r_scope res = attached sc0 /\ r_end res = Returned) /\
+  (encodable cfg (asgi_decision d) ->
+     exists extra,
+       r_events res = [EvBuild (attached sc0); EvEval s a r c;
+                       EvSend send (MStart 403 (base_headers ++ extra));
+                       EvSend send (MBody "{""detail"": ""Forbidden""}")] /\
+       messages res = [MStart 403 (base_headers ++ extra); MBody "{""detail"": ""Forbidden""}"] /\
+       r_end res = Returned /\
+       (c_add_headers cfg = false -> extra = []) /\
+       (forall v, ~ In ("x-rbacx-rule", v) extra)).
+Proof. exact asgi_no_applicable_rule_gives_403. Qed.
+Print Assumptions c20_no_applicable_rule_gives_403.
+
+(* when an engine Decision is `encodable`: reason and rule id free of lone surrogates, policy id
+   falsy or with a modelled, well-formed str() *)
+Theorem c20_engine_decision_encodable :
+  forall cfg d,
+  has_surrogate (Engine.d_reason d) = false ->
+  (forall s0, Engine.d_rule_id d = Some s0 -> has_surrogate s0 = false) ->
+  (forall v, Engine.d_policy_id d = Some v -> field_ok v) ->
+  encodable cfg (asgi_decision d).
+Proof. exact encodable_asgi_decision. Qed.
+Print Assumptions c20_engine_decision_encodable.
+
+(* (3) The engine raises (GRaise w): the middleware has no try/except around the await
+   (asgi.py:45), the exception propagates out of __call__; nothing is sent — no 403 —, downstream
+   is not invoked, the guard stays attached.  Fails closed by propagation. *)
+Theorem c20_engine_raise_propagates :
+  forall cfg rel strict policy resolved objs sc0 recv send s a r c send_fail app_exc w,
+  c_mode cfg = VStr "enforce" ->
+  scope_get "type" sc0 = Some (SV (VStr "http")) ->
+  engine_eval rel strict policy resolved objs s a r c = GRaise w ->
+  exists res,
+    call_engine cfg rel strict policy resolved objs (Some (BRet [s; a; r; c])) sc0 recv send send_fail app_exc = Some res /\
+    r_events res = [EvBuild (attached sc0); EvEval s a r c] /\
+    app_called res = false /\ messages res = [] /\ r_end res = Raised w /\ r_scope res = attached sc0.
+Proof. exact asgi_engine_raise_propagates. Qed.
+Print Assumptions c20_engine_raise_propagates.
+
+(* The request / policy outside the engine model's domain (GOod): the composition says NOTHING
+   there — call_engine has no result exactly then, and that happens exactly when the request is not
+   of the modelled shape (build_env = None: roles not a list, attrs / context not dicts) or the
+   decision procedure leaves the modelled domain on the built environment. *)
+Theorem c20_engine_ood_no_claim :
+  forall cfg rel strict policy resolved objs sc0 recv send s a r c send_fail app_exc,
+  c_mode cfg = VStr "enforce" ->
+  scope_get "type" sc0 = Some (SV (VStr "http")) ->
+  (call_engine cfg rel strict policy resolved objs (Some (BRet [s; a; r; c])) sc0 recv send send_fail app_exc = None
+   <-> engine_eval rel strict policy resolved objs s a r c = GOod) /\
+  (engine_eval rel strict policy resolved objs s a r c = GOod <->
+   build_env strict (request_of objs s a r c) resolved = None \/
+   exists env, build_env strict (request_of objs s a r c) resolved = Some env /\
+               fst (guard_decide unit (relh_pure rel) policy env tt) = EOod).
+Proof. exact asgi_engine_ood_no_claim. Qed.
+Print Assumptions c20_engine_ood_no_claim.
+
+(* outside the access check the engine is not consulted: call_engine is total and is the
+   pass-through of c20_passthrough, whatever the policy and the objects *)
+Theorem c20_engine_not_consulted_outside_check :
+  forall cfg rel strict policy resolved objs builder sc0 recv send send_fail app_exc,
+  checked cfg builder sc0 = false ->
+  call_engine cfg rel strict policy resolved objs builder sc0 recv send send_fail app_exc =
+  Some {| r_events := [EvApp (attached sc0) recv send]; r_scope := attached sc0; r_end := app_end app_exc |}.
+Proof. exact asgi_engine_not_consulted_outside_check. Qed.
+Print Assumptions c20_engine_not_consulted_outside_check.
+
+(* (4) non-vacuity (theories/AsgiEngine.v): x_policy = permit "read" on doc (rule r1), lax engine, no
+   resolver, header diagnostics on; x_run method action = call_engine on the scope
+   {"type": "http", "method": method, "path": "/docs/1"} with the builder returning objects
+   [0; action; 2; 3] (x_objs: 0 the subject, 1 Action("read"), 2 the doc, 3 an empty context,
+   4 Action("delete")).  GET is allowed and reaches downstream; DELETE matches no rule: 403. *)
+Example c20_engine_example_allowed :
+  x_run "GET" 1 =
+  let sc := [("type", SV (VStr "http")); ("method", SV (VStr "GET")); ("path", SV (VStr "/docs/1"));
+             ("rbacx_guard", SGuard)] in
+  Some {| r_events := [EvBuild sc; EvEval 0 1 2 3; EvApp sc 7 8]; r_scope := sc; r_end := Returned |}.
+Proof. vm_compute. reflexivity. Qed.
+
+Example c20_engine_example_denied :
+  x_run "DELETE" 4 =
+  let sc := [("type", SV (VStr "http")); ("method", SV (VStr "DELETE")); ("path", SV (VStr "/docs/1"));
+             ("rbacx_guard", SGuard)] in
+  Some {| r_events := [EvBuild sc; EvEval 0 4 2 3;
+                       EvSend 8 (MStart 403 [("content-type", "application/json; charset=utf-8");
+                                             ("content-length", "23"); ("x-rbacx-reason", "no_match")]);
+                       EvSend 8 (MBody "{""detail"": ""Forbidden""}")];
+          r_scope := sc; r_end := Returned |}.
+Proof. vm_compute. reflexivity. Qed.
+
+(* the hypotheses of the theorems hold on those runs: the policy is well formed; on the DELETE
+   request no rule applies, the engine returns a Decision, and it is encodable *)
+Example c20_engine_example_hypotheses :
+  tree_ok x_policy /\
+  exists env d,
+    build_env false (request_of x_objs 0 4 2 3) None = Some env /\
+    (forall rule, In rule (all_rules x_policy) -> ~ applicable (fun _ => false) rule env) /\
+    engine_eval (fun _ => false) false x_policy None x_objs 0 4 2 3 = GDecision d /\
+    encodable x_cfg (asgi_decision d).
+Proof. split; [exact x_tree_ok|exact x_denied_hypotheses]. Qed.
+
+(* theorem (1) applied to the GET run yields an applicable non-deny rule of x_policy *)
+Example c20_engine_example_allowed_explained :
+  exists res, x_run "GET" 1 = Some res /\ app_called res = true /\
+  exists env rule eff,
+    build_env false (request_of x_objs 0 1 2 3) None = Some env /\
+    In rule (all_rules x_policy) /\ applicable (fun _ => false) rule env /\
+    rule_effect rule = Some eff /\ eff <> "deny".
+Proof. exact x_allowed_explained. Qed.
+
+(* an engine that raises (a policy set with a child that is not a dict) and a request outside the
+   engine model's domain (roles that are not a list) *)
+Example c20_engine_example_raise_and_ood :
+  engine_eval (fun _ => false) false (VObj [("policies", VList [VStr "oops"])]) None x_objs 0 1 2 3
+    = GRaise "AttributeError" /\
+  call_engine x_cfg (fun _ => false) false (VObj [("policies", VList [VStr "oops"])]) None x_objs
+              (Some (BRet [0; 1; 2; 3])) (x_scope "GET") 7 8 None None
+    = Some {| r_events := [EvBuild (attached (x_scope "GET")); EvEval 0 1 2 3];
+              r_scope := attached (x_scope "GET"); r_end := Raised "AttributeError" |} /\
+  engine_eval (fun _ => false) false x_policy None (fun _ => VObj [("roles", VStr "admin")]) 0 1 2 3 = GOod /\
+  call_engine x_cfg (fun _ => false) false x_policy None (fun _ => VObj [("roles", VStr "admin")])
+              (Some (BRet [0; 1; 2; 3])) (x_scope "GET") 7 8 None None = None.
+Proof. exact x_raise_and_ood. Qed.
